@@ -268,6 +268,11 @@ class TV:
             self.fail("memsafe", "decl/state.width", f"state member type {sty} cannot hold {self.nstates} states")
         else:
             self.results.append(Result("memsafe", "decl/state.width", "proved", "state type holds all state indices"))
+        # label/state coherence (C02, C10, C04, C17) also rests on it: a truncated store would dispatch the next call to another case
+        if sty not in ops.UNSIGNED_MAX or ops.UNSIGNED_MAX[sty] < self.nstates - 1:
+            self.fail("coherence", "decl/state.holds-every-index", f"state member type {sty} cannot hold {self.nstates} state indices: a stored index would be truncated and the next call would dispatch elsewhere")
+        else:
+            self.results.append(Result("coherence", "decl/state.holds-every-index", "proved", "state type holds all state indices"))
         self.spec.declared = declared
 
     def split_switch(self, fname):
@@ -628,6 +633,11 @@ class TV:
                     self.check_continue(t2, i, p, hyp, consumed_expected=0, inval0=inval0, start0=start0, end0=end0, bs=bs, fam="end", ctx=ctx)
                     continue
                 want = "DONE" if acc else "FAIL"
+                if term[0] == "goto" and ctx == "end":
+                    # the C text goes on where a verdict was due: whatever the `end` family says about that, the move is part of what
+                    # end() really does and belongs to the graph whose acyclicity C04 needs
+                    tv_ = z3.simplify(cst.vals[("m", "state")]) if ("m", "state") in cst.vals else tgt
+                    self.end_edges.append((i, tv_.as_long() if z3.is_int_value(tv_) else None))
                 if term[0] != "return" or term[1] != f"{U}_{want}":
                     ov = ".override" if a.get("overridden") else ""
                     self.fail("end", f"{t2}.result{ov}", f"end() returns {term[1] if term[0]=='return' else term} after the end-of-input transition into {'an accepting' if acc else 'a non-accepting'} state; {want} expected", line,
